@@ -4,12 +4,12 @@ CONSTANTS
   Ident = FALSE
   Dev = {}
   JitClasses = {"zero"}
-  Plan = "mixed"
-  Kinds = {"good", "wrongsrc"}
+  Plan = "thr2"
+  Kinds = {"good", "badauth", "wrongid", "wrongsrc", "reqcode"}
   MaxFlips = 1
-  MaxReplies = 2
+  MaxReplies = 3
   AllowCancel = TRUE
   AllowDestroy = TRUE
-  PortReuse = FALSE
+  PortReuse = TRUE
 INVARIANTS ICompleteOnce INoTxAfterDone ITxBound ISlots IArmed IMatch IDelivered IFailover IQuiescent IDestroyed IMemSafe INas IBufUnits IDuration
 CHECK_DEADLOCK FALSE
